@@ -30,6 +30,7 @@ import (
 	"runtime/debug"
 	"strconv"
 	"strings"
+	"sync"
 	"syscall"
 	"time"
 
@@ -62,9 +63,10 @@ func main() {
 			"path oracle: decoded URL path (net/http's parsing of the wire text) cleaned with path.Clean(\"/\"+p) and joined under the root; a regular file there => that content or 404, anything else => 404; symlinks are not generated",
 			"numbers >= 2^26 are run on static.Modifier only in expendable children with a 2 GiB address-space limit, because the pinned code allocates a buffer of that size",
 		},
-		Plan:   plan,
-		Run:    run,
-		Replay: replay,
+		RaceFiles: []string{"/body/", "/static/"},
+		Plan:      plan,
+		Run:       run,
+		Replay:    replay,
 	})
 }
 
@@ -79,6 +81,19 @@ func plan(tier string, seed int64) []vh.Batch {
 	}
 	for i := 0; i < np; i++ {
 		bs = append(bs, vh.Batch{Name: fmt.Sprintf("paths-%d", i), TimeoutS: 900, MemMB: 4096})
+	}
+	nh, nc, nrh := 2, 1, 1
+	if tier == "thorough" {
+		nh, nc, nrh = 4, 2, 2
+	}
+	for i := 0; i < nh; i++ {
+		bs = append(bs, vh.Batch{Name: fmt.Sprintf("hist-%d", i), TimeoutS: 900, MemMB: 4096})
+	}
+	for i := 0; i < nc; i++ {
+		bs = append(bs, vh.Batch{Name: fmt.Sprintf("chist-%d", i), TimeoutS: 900, MemMB: 4096})
+	}
+	for i := 0; i < nrh; i++ {
+		bs = append(bs, vh.Batch{Name: fmt.Sprintf("race-hist-%d", i), Race: true, TimeoutS: 1500})
 	}
 	bs = append(bs,
 		vh.Batch{Name: "huge-body", TimeoutS: 600, MemMB: 2048},
@@ -249,29 +264,45 @@ type callResult struct {
 
 func bodyLimit(content []byte) int { return 4*len(content) + 1<<20 }
 
-// callDirect runs mod.ModifyResponse on a fresh upstream response for req and
-// reads the resulting body; panics are caught here (a fatal error is not
-// catchable: the driver attributes the death to the last logged case).
-func callDirect(mod martian.ResponseModifier, req *http.Request, limit int) (cr callResult) {
-	res := newOrigResponse(req)
+// held is a response a modifier has produced and whose body has not been
+// read yet.
+type held struct {
+	res *http.Response
+	cr  callResult
+}
+
+// produce runs mod.ModifyResponse on a fresh upstream response for req;
+// panics are caught here (a fatal error is not catchable: the driver
+// attributes the death to the last logged case).
+func produce(mod martian.ResponseModifier, req *http.Request) *held {
+	h := &held{res: newOrigResponse(req)}
 	func() {
 		defer func() {
 			if p := recover(); p != nil {
-				cr.panicked = true
-				cr.pval = fmt.Sprint(p)
-				cr.stack = trimStack(debug.Stack())
+				h.cr.panicked = true
+				h.cr.pval = fmt.Sprint(p)
+				h.cr.stack = trimStack(debug.Stack())
 			}
 		}()
-		if err := mod.ModifyResponse(res); err != nil {
-			cr.obs.RetErr = err.Error()
+		if err := mod.ModifyResponse(h.res); err != nil {
+			h.cr.obs.RetErr = err.Error()
 		}
 	}()
-	if cr.panicked {
-		return
+	if !h.cr.panicked {
+		h.cr.obs.Status = h.res.StatusCode
+		h.cr.obs.Header = h.res.Header.Clone()
+		h.cr.obs.ContentLength = h.res.ContentLength
 	}
-	cr.obs.Status = res.StatusCode
-	cr.obs.Header = res.Header
-	cr.obs.ContentLength = res.ContentLength
+	return h
+}
+
+// consume reads the body of a produced response (bounded) and closes it.
+func (h *held) consume(limit int) callResult {
+	cr := &h.cr
+	if cr.panicked {
+		return *cr
+	}
+	res := h.res
 	func() {
 		defer func() {
 			if p := recover(); p != nil {
@@ -295,7 +326,12 @@ func callDirect(mod martian.ResponseModifier, req *http.Request, limit int) (cr 
 		cr.obs.Body = b
 		res.Body.Close()
 	}()
-	return
+	return *cr
+}
+
+// callDirect produces one response and reads it at once.
+func callDirect(mod martian.ResponseModifier, req *http.Request, limit int) callResult {
+	return produce(mod, req).consume(limit)
 }
 
 func trimStack(s []byte) string {
@@ -446,15 +482,8 @@ func (e *env) runRange(c rangeCase) {
 			mod = e.bmods[name]
 		}
 		cr := callDirect(mod, req, bodyLimit(content))
-		r.Eval(1)
-		if cr.panicked {
-			r.Class(fmt.Sprintf("%s:direct:%s:panic:%s", c.Mod, exp.Class, sizeBucket(c.Size)))
-			r.ViolationCase(c, "C20:panic:"+modName+":"+exp.Group,
-				fmt.Sprintf("%s panicked on Range %q, content size %d: %s", modName, seen, c.Size, cr.pval),
-				map[string]interface{}{"panic": cr.pval, "stack": cr.stack, "expected": exp.String()})
-			return
-		}
-		o = cr.obs
+		e.judgeRange(c, exp, content, seen, cr)
+		return
 	case "proxy":
 		x := e.proxyFor(c.Mod)
 		var got bool
@@ -473,6 +502,27 @@ func (e *env) runRange(c rangeCase) {
 			return
 		}
 	}
+	e.judgeObserved(c, exp, content, seen, o)
+}
+
+// judgeRange judges the result of a direct call (panic, or observed response).
+func (e *env) judgeRange(c rangeCase, exp rangex.Expect, content []byte, seen string, cr callResult) {
+	r := e.r
+	modName := c.Mod + ".Modifier"
+	r.Eval(1)
+	if cr.panicked {
+		r.Class(fmt.Sprintf("%s:%s:%s:panic:%s", c.Mod, c.Via, exp.Class, sizeBucket(c.Size)))
+		r.ViolationCase(c, "C20:panic:"+modName+":"+exp.Group,
+			fmt.Sprintf("%s panicked on Range %q, content size %d: %s", modName, seen, c.Size, cr.pval),
+			map[string]interface{}{"panic": cr.pval, "stack": cr.stack, "expected": exp.String()})
+		return
+	}
+	e.judgeObserved(c, exp, content, seen, cr.obs)
+}
+
+func (e *env) judgeObserved(c rangeCase, exp rangex.Expect, content []byte, seen string, o rangex.Observed) {
+	r := e.r
+	modName := c.Mod + ".Modifier"
 	clause, what, kind := rangex.Check(exp, content, 200, o)
 	r.Class(fmt.Sprintf("%s:%s:%s:%s:%s", c.Mod, c.Via, exp.Class, kind, sizeBucket(c.Size)))
 	r.Count("body_bytes_compared", int64(len(o.Body)))
@@ -534,6 +584,131 @@ func genRange(r *vh.Run, stream string, idx int, mod, via string, allowHuge, nee
 		}
 		return rangeCase{Kind: "range", Mod: mod, Via: via, Size: size, CID: cid, Present: present, Range: h, Gen: kind}
 	}
+}
+
+// ---------------------------------------------------------------------------
+// histories: several responses are produced before any of their bodies is read
+
+type histCase struct {
+	Kind   string `json:"kind"` // "hist" | "chist"
+	Stream string `json:"stream"`
+	Idx    int    `json:"idx"`
+	G      int    `json:"g,omitempty"` // chist: goroutines running histories side by side
+	M      int    `json:"m,omitempty"` // chist: histories per goroutine
+}
+
+// runHistory: K = 2..6 requests answered by the same modifier(s) - single,
+// multiple, open, suffix, full - and only then all bodies read, in a PRNG
+// order; every response is judged by the usual oracle. Via "hist" marks the
+// class. Contents come from the pre-ensured pool.
+func (e *env) runHistory(stream string, idx int, via string, parent interface{}) {
+	r := e.r
+	rng := r.Rng(stream, idx)
+	k := 2 + rng.Intn(5)
+	size := poolSizes[rng.Intn(len(poolSizes))]
+	mod := []string{"body", "body", "static"}[rng.Intn(3)]
+	mixed := rng.Intn(5) == 0
+	type item struct {
+		c       rangeCase
+		exp     rangex.Expect
+		content []byte
+		seen    string
+		h       *held
+	}
+	var items []*item
+	for j := 0; j < k; j++ {
+		m := mod
+		sz := size
+		if mixed {
+			m = []string{"body", "static"}[rng.Intn(2)]
+			if rng.Intn(2) == 0 {
+				sz = poolSizes[rng.Intn(len(poolSizes))]
+			}
+		}
+		var h string
+		var present bool
+		var kind string
+		for tries := 0; ; tries++ {
+			h, present, kind = rangex.Gen(rng, sz, false)
+			if kind == "multi" || tries > 20 || rng.Intn(3) == 0 {
+				break
+			}
+		}
+		c := rangeCase{Kind: "range", Mod: m, Via: via, Size: sz, CID: 1000, Present: present, Range: h, Gen: kind}
+		name := cname(c.CID, c.Size)
+		content := contentOf(c.CID, c.Size)
+		req, _, ok := wireRequest("/c/"+name, c.Range, c.Present, "")
+		if !ok {
+			req, _ = http.NewRequest("GET", "http://static.test/c/"+name, nil)
+			if c.Present {
+				req.Header["Range"] = []string{c.Range}
+			}
+		}
+		seen, pres := "", false
+		if v, has := req.Header["Range"]; has && len(v) > 0 {
+			seen, pres = v[0], true
+		}
+		var md martian.ResponseModifier = e.smod
+		if m == "body" {
+			md = e.bmods[name]
+		}
+		it := &item{c: c, exp: rangex.Evaluate(seen, pres, c.Size), content: content, seen: seen}
+		it.h = produce(md, req)
+		items = append(items, it)
+	}
+	for _, j := range rng.Perm(len(items)) {
+		it := items[j]
+		cr := it.h.consume(bodyLimit(it.content))
+		// the violation carries the whole history: the single case alone does not reproduce it
+		var hist []rangeCase
+		for _, x := range items {
+			hist = append(hist, x.c)
+		}
+		e.judgeHist(parent, hist, j, it.c, it.exp, it.content, it.seen, cr)
+	}
+}
+
+func (e *env) judgeHist(parent interface{}, hist []rangeCase, pos int, c rangeCase, exp rangex.Expect, content []byte, seen string, cr callResult) {
+	r := e.r
+	modName := c.Mod + ".Modifier"
+	r.Eval(1)
+	if cr.panicked {
+		r.ViolationCase(parent, "C20:panic:"+modName+":"+exp.Group, fmt.Sprintf("%s panicked on Range %q, content size %d (response %d of a history of %d): %s", modName, seen, c.Size, pos, len(hist), cr.pval),
+			map[string]interface{}{"history": hist, "stack": cr.stack})
+		return
+	}
+	o := cr.obs
+	clause, what, kind := rangex.Check(exp, content, 200, o)
+	r.Class(fmt.Sprintf("%s:%s:%s:%s:%s", c.Mod, c.Via, exp.Class, kind, sizeBucket(c.Size)))
+	r.Count("body_bytes_compared", int64(len(o.Body)))
+	if clause != "" {
+		r.ViolationCase(parent, "C20:"+clause+":"+modName+":"+exp.Group,
+			fmt.Sprintf("%s, response %d of a history of %d produced before any body was read, Range %q on %d bytes: %s", modName, pos, len(hist), seen, c.Size, what),
+			map[string]interface{}{"history": hist, "expected": exp.String(), "status": o.Status, "content_length": o.ContentLength,
+				"content_range": o.Header.Get("Content-Range"), "content_type": o.Header.Get("Content-Type"), "body_len": len(o.Body), "body_err": o.BodyErr})
+	}
+}
+
+func (e *env) ensurePool() {
+	for _, sz := range poolSizes {
+		e.ensure(1000, sz)
+	}
+}
+
+// runConcurrentHistories: G goroutines run M histories each, side by side, on
+// the same modifiers.
+func (e *env) runConcurrentHistories(c histCase) {
+	var wg sync.WaitGroup
+	for g := 0; g < c.G; g++ {
+		wg.Add(1)
+		go func(g int) {
+			defer wg.Done()
+			for m := 0; m < c.M; m++ {
+				e.runHistory(fmt.Sprintf("%s/r%d/g%d", c.Stream, c.Idx, g), m, "chist", c)
+			}
+		}(g)
+	}
+	wg.Wait()
 }
 
 type blockCase struct {
@@ -636,6 +811,60 @@ func genPath(r *vh.Run, stream string, idx int, via string) pathCase {
 		c.Gen = "special"
 		p = []string{"/%00", "/a.txt%00", "/a.txt%00.html", "/sub/%00/../b.txt", "/" + long(rng), "/sub/" + long(rng) + "/../b.txt", "/" + long(rng) + "/" + long(rng),
 			"/?../../outside/secret", "/a.txt?x=/../../outside/secret", "/.", "/..", "/...", "//", "/%2e%2e", "/%2e%2e/%2e%2e/", "/a.txt#frag", "/%", "/%zz", "/a b"}[rng.Intn(19)]
+	case x < 91:
+		// dot segments and separators percent-encoded more than once (or only
+		// partly, or with mixed depths), aimed at the sentinels: after the one
+		// decoding net/http performs they are ordinary characters of a name that
+		// does not exist beneath the root
+		c.Gen = "multi-encoded"
+		encN := func(s string, depth int) string {
+			if depth <= 0 {
+				return s
+			}
+			s = strings.NewReplacer(".", "%2e", "/", "%2f", "\\", "%5c").Replace(s)
+			for d := 1; d < depth; d++ {
+				s = strings.ReplaceAll(s, "%", "%25")
+			}
+			if rng.Intn(3) == 0 {
+				s = strings.ToUpper(s)
+			}
+			return s
+		}
+		depth := func() int { return []int{2, 2, 2, 3, 1}[rng.Intn(5)] }
+		dotdot := func() string {
+			switch rng.Intn(6) {
+			case 0:
+				return "." + encN(".", depth())
+			case 1:
+				return encN(".", depth()) + "."
+			case 2:
+				return encN(".", 1) + encN(".", 2)
+			}
+			return encN("..", depth())
+		}
+		sep := func() string {
+			switch rng.Intn(5) {
+			case 0:
+				return encN("/", 2)
+			case 1:
+				return encN("\\", 2)
+			case 2:
+				return encN("/", 3)
+			}
+			return "/"
+		}
+		var sb strings.Builder
+		sb.WriteString("/" + []string{"", "", "sub/", "sub/deep/", "nope/", "c/"}[rng.Intn(6)])
+		for i, k := 0, 1+rng.Intn(4); i < k; i++ {
+			sb.WriteString(dotdot())
+			sb.WriteString(sep())
+		}
+		tgt := []string{"secret", "outside/secret", "a.txt", "sub/b.txt", "rootx", "root-evil/secret"}[rng.Intn(6)]
+		if rng.Intn(3) == 0 {
+			tgt = strings.ReplaceAll(tgt, "/", encN("/", 2))
+		}
+		sb.WriteString(tgt)
+		p = sb.String()
 	default:
 		c.Gen = "random"
 		k := 1 + rng.Intn(8)
@@ -925,6 +1154,35 @@ func run(r *vh.Run, batch string) {
 			e.runPathBlock(b, []string{"wire", "url", "wire"}, false)
 			runtime.GC()
 		}
+	case strings.HasPrefix(batch, "hist-"):
+		e.ensurePool()
+		n := r.Pick(1500, 10000)
+		stream := "c20-" + batch
+		for i := 0; i < n; i++ {
+			c := histCase{Kind: "hist", Stream: stream, Idx: i}
+			if i%250 == 0 {
+				r.Case(map[string]interface{}{"kind": "hist-block", "stream": stream, "from": i})
+			}
+			r.SetCase(c)
+			e.runHistory(stream, i, "hist", c)
+			if i%200 == 199 {
+				runtime.GC()
+			}
+		}
+	case strings.HasPrefix(batch, "chist-"), strings.HasPrefix(batch, "race-hist-"):
+		e.ensurePool()
+		n := r.Pick(100, 500)
+		if strings.HasPrefix(batch, "race-") {
+			n = r.Pick(30, 100)
+		}
+		stream := "c20-" + batch
+		for i := 0; i < n; i++ {
+			rng := r.Rng(stream, i)
+			c := histCase{Kind: "chist", Stream: stream, Idx: i, G: 2 + rng.Intn(3), M: 20}
+			r.Case(c)
+			e.runConcurrentHistories(c)
+			runtime.GC()
+		}
 	case batch == "huge-body":
 		n := r.Pick(400, 5000)
 		for i := 0; i < n; i++ {
@@ -1096,6 +1354,20 @@ func replay(r *vh.Run, raw json.RawMessage) {
 		json.Unmarshal(raw, &c)
 		e := newEnv(r)
 		e.runPath(c)
+	case "hist":
+		var c histCase
+		json.Unmarshal(raw, &c)
+		e := newEnv(r)
+		e.ensurePool()
+		e.runHistory(c.Stream, c.Idx, "hist", c)
+	case "chist":
+		var c histCase
+		json.Unmarshal(raw, &c)
+		e := newEnv(r)
+		e.ensurePool()
+		for i := 0; i < 5; i++ {
+			e.runConcurrentHistories(c)
+		}
 	case "block":
 		var b blockCase
 		json.Unmarshal(raw, &b)
